@@ -104,8 +104,9 @@ GotoL == /\ mode = "L" /\ AtEnd(b1, i1) /\ n < MaxSteps
                  \/ /\ ok1 # ok2
                     /\ LET r == Rejoin(b1)
                        IN /\ r # 0
-                          /\ \E q2 \in Succs(b1) :               \* where the copy that cannot enter q goes instead
-                               /\ GuardOk(q2, IF ok1 THEN s2 ELSE s1)
+                          /\ \E q2 \in Succs(b1) :               \* where the copy that cannot enter q goes instead:
+                               /\ GuardOk(q2, IF ok1 THEN s2 ELSE s1)      \* the outcomes are mutually exclusive
+                               /\ ~GuardOk(q2, IF ok1 THEN s1 ELSE s2)     \* (otherwise the choice, not v, decided)
                                /\ LET t1 == IF ok1 THEN q ELSE q2
                                       t2 == IF ok1 THEN q2 ELSE q
                                   IN /\ b1' = t1 /\ i1' = GLen(t1) + 1 /\ w1' = (t1 = r)
@@ -162,6 +163,7 @@ ControlDep    == (a # 0 /\ mode = "R") => /\ ~(~w1 /\ AtA(b1, i1))
                                           /\ ~(~w2 /\ AtA(b2, i2))
 ReachedListed == (a = 0 /\ AtAssert(b1, i1)) => StmtsOf(b1)[i1].id \in ListedIdsOf(P, ob)
 
+NoDiv == ~(dv = 1 /\ mode = "L" /\ a # 0 /\ AtA(b1, i1))
 Compact == [prog |-> P.id, from_block |-> ob, assertion |-> a, variable |-> v, md |-> mode, diverged |-> dv, rejoin |-> rj,
             blk1 |-> b1, idx1 |-> i1, state1 |-> s1, blk2 |-> b2, idx2 |-> i2, state2 |-> s2]
 ===========================================================================
